@@ -20,6 +20,11 @@ def main():
     seed = int(os.environ.get("VERIF_SEED", "20260921"))
     print(f"VERIF_SEED={seed} property={a.prop} tier={a.tier} repo={os.environ.get('VERIF_REPO', '/repo')}")
     import abtem
+    import dask
+
+    # any compute that happens outside a simulated phase (reference runs, library internals that call np.asarray on a
+    # dask array) runs synchronously: deterministic, and no dask thread pool exists in the parent when workers are forked
+    dask.config.set(scheduler="synchronous")
 
     repo = os.path.realpath(os.environ.get("VERIF_REPO", "/repo"))
     if not os.path.realpath(abtem.__file__).startswith(repo + os.sep):
